@@ -77,6 +77,43 @@ def gen_case(rng):
         if t[0] == "p" and rng.random() < 0.6:
             t = ["f", rand_decimal(rng)]
         stmts.append(["set", dest, t])
+    # comparisons mixing fixed-point and integer operands (as they are)
+    pivots = []
+    fixed_places = [p for p in places
+                    if dsl.Spec(dict(regs=regs, vars=vars_, locs=locs,
+                                     stmts=[])).info(p)[2]]
+    if fixed_places and rng.random() < 0.45:
+        for _ in range(rng.choice([1, 1, 2])):
+            lhs = rng.choice(fixed_places)
+            r = rng.random()
+            if r < 0.4:
+                s = rand_decimal(rng) if rng.random() < 0.5 else str(
+                    Decimal(rng.randint(-3 * 10 ** 9, 3 * 10 ** 10))
+                    .scaleb(-rng.randint(0, 5)))
+                rhs = ["f", s]
+                pivot = Fraction(s) * 100000
+            elif r < 0.6:
+                v = rng.choice([0, 1, 10000, 21474, 21475, 42949, 42950,
+                                -21475, rng.randint(-10 ** 6, 10 ** 6)])
+                rhs = ["c", v]
+                pivot = v * 100000
+            else:
+                rhs = ["p", rng.choice(places)]
+                pivot = None
+            if rng.random() < 0.15:
+                cond = ["truth", ["p", lhs]]
+                pivot = 0
+            else:
+                cond = ["cmp", rng.choice(["==", "!=", "<", "<=", ">",
+                                           ">="]), ["p", lhs], rhs]
+                if rng.random() < 0.3 and rhs[0] != "p":
+                    cond[2], cond[3] = cond[3], cond[2]
+            body = [["set", rng.choice(places),
+                     ["f", rand_decimal(rng)]]]
+            stmts.insert(rng.randint(0, len(stmts)),
+                         ["if", cond, body,
+                          [] if rng.random() < 0.5 else None])
+            pivots.append((lhs, pivot))
     specd = dict(regs=regs, vars=vars_, locs=locs, stmts=stmts)
     spec = dsl.Spec(specd)
     inputs = []
@@ -94,6 +131,21 @@ def gen_case(rng):
             if mode == "mixed" and signed and rng.random() < 0.4:
                 raw = -raw
             v[p] = raw & ((1 << (8 * size)) - 1)
+        # put the compared fixed places around their pivots, at any
+        # magnitude the 64 bit representation holds
+        for lhs, pivot in pivots:
+            if rng.random() < 0.7:
+                size = spec.info(lhs)[0]
+                if pivot is None:
+                    raw = rng.choice([rng.randint(-2 ** 40, 2 ** 40),
+                                      rng.randint(0, 2 ** 33)])
+                else:
+                    raw = int(pivot) + rng.choice([0, 0, 1, -1, 100000,
+                                                   -100000, 2 ** 32,
+                                                   -2 ** 32,
+                                                   rng.randint(-10 ** 7,
+                                                               10 ** 7)])
+                v[lhs] = raw & ((1 << (8 * size)) - 1)
         inputs.append(v)
     return dict(spec=specd, inputs=inputs)
 
@@ -168,6 +220,20 @@ def check_case(case, res, use_v=True):
                     else:
                         res.count("stmt_unchecked")
                 res.count("stmt_strict", nstrict)
+                for path, mk in ref["markers"].items():
+                    if mk.get("A") is None:
+                        res.count("cond_unchecked")
+                        continue
+                    if mk["T"] or mk["E"]:
+                        s = c01.stmt_by_path(spec, path)
+                        big = any(abs(dsl.interp(inputs[p], *spec.info(p)[:2]))
+                                  >= 1 << 31 for p in spec.places()
+                                  if spec.info(p)[2] and
+                                  any(t == ["p", p] for t in s[1][1:]))
+                        res.count(f"cond_checked[{s[1][0]}/"
+                                  f"{'big' if big else 'small'}/"
+                                  f"{'T' if mk['T'] else 'F'}]")
+                        nstrict += 1
                 res.case([specd, inputs], nontrivial=nstrict > 0)
                 obs_k, obs_v, fault = cr.run(inputs, use_v=use_v)
                 if use_v:
@@ -270,6 +336,11 @@ def finalize(res, tier, seed):
                                         / max(tot, 1), 3)
     if missing:
         res.inconc(f"strata without a strict case: {missing}")
+    for k in ("cond_checked[cmp/big/T]", "cond_checked[cmp/big/F]",
+              "cond_checked[cmp/small/T]", "cond_checked[cmp/small/F]",
+              "cond_checked[truth/small/T]"):
+        if not c.get(k):
+            res.inconc(f"no fixed-point comparison observed in stratum {k}")
 
 
 def replay(v):
